@@ -256,37 +256,58 @@ func callFormRules(c *core.Ctx, r *core.Report, rule string) {
 				"classifier has no arm for *ssa."+form+": a "+strings.ToLower(form)+"-form call to a function matching a specification is not identified (e.g. `defer os.RemoveAll(path)` is never a backtrace point or source)")
 		}
 	}
-	// entry-point scan must not use CallInstruction.Value() to obtain the node handed to the SSA predicate
-	if fd, p := c.Decl("analysis/dataflow", "scanEntryPoints"); fd != nil {
-		r.Analysed("analysis/dataflow.scanEntryPoints")
-		n := 0
-		ast.Inspect(fd.Body, func(nd ast.Node) bool {
-			call, ok := nd.(*ast.CallExpr)
-			if !ok || len(call.Args) != 1 {
-				return true
-			}
-			inner, ok := call.Args[0].(*ast.CallExpr)
-			if !ok {
-				return true
-			}
-			se, ok := inner.Fun.(*ast.SelectorExpr)
-			if !ok || se.Sel.Name != "Value" {
-				return true
-			}
-			rt := p.TypesInfo.TypeOf(se.X)
-			if rt == nil || !strings.HasSuffix(rt.String(), "ssa.CallInstruction") {
-				return true
-			}
-			n++
-			r.Fail(rule, fmt.Sprintf("analysis/dataflow.scanEntryPoints|CallInstruction.Value()#%d", n), c.Pos(call.Pos()),
-				"the entry-point predicate is applied to CallInstruction.Value(), which is nil for go and defer statements: a go/defer-form call matching a source or backtrace-point specification is never an entry point")
-			return true
-		})
-		if n == 0 {
-			r.OK(rule, "analysis/dataflow.scanEntryPoints|CallInstruction.Value()", c.Pos(fd.Pos()), "entry-point scan does not go through CallInstruction.Value()")
+	// identification code must not go through CallInstruction.Value(): it is nil for go and defer statements
+	valueScope := []struct{ rel, file string }{
+		{"analysis/dataflow", "inter_procedural.go"}, {"analysis/dataflow", "annotation_resolver.go"},
+		{"analysis/taint", "code_identifiers.go"}, {"analysis/taint", "taint.go"},
+		{"internal/analysisutil", "analysisutil.go"}, {"analysis/backtrace", "backtrace.go"},
+	}
+	nFiles, nSites := 0, 0
+	for _, vs := range valueScope {
+		p := c.Pkg(vs.rel)
+		if p == nil {
+			continue
 		}
-	} else {
-		r.Fail("infra.anchor-unresolved", rule+"|analysis/dataflow.scanEntryPoints", "", "not found")
+		for _, f := range p.Syntax {
+			if !strings.HasSuffix(c.Fset.Position(f.Pos()).Filename, "/"+vs.file) {
+				continue
+			}
+			nFiles++
+			for _, d := range f.Decls {
+				fd, ok := d.(*ast.FuncDecl)
+				if !ok || fd.Body == nil {
+					continue
+				}
+				fname := vs.rel + "." + fd.Name.Name
+				r.Analysed(fname)
+				n := 0
+				ast.Inspect(fd.Body, func(nd ast.Node) bool {
+					inner, ok := nd.(*ast.CallExpr)
+					if !ok || len(inner.Args) != 0 {
+						return true
+					}
+					se, ok := inner.Fun.(*ast.SelectorExpr)
+					if !ok || se.Sel.Name != "Value" {
+						return true
+					}
+					rt := p.TypesInfo.TypeOf(se.X)
+					if rt == nil || !strings.HasSuffix(rt.String(), "ssa.CallInstruction") {
+						return true
+					}
+					n++
+					nSites++
+					r.Fail(rule, fmt.Sprintf("%s|CallInstruction.Value()#%d", fname, n), c.Pos(inner.Pos()),
+						"identification of a call goes through CallInstruction.Value(), which is nil for go and defer statements: a go/defer-form call matching a specification (source, backtrace point, or a sink/sanitizer given with value-match) is not identified")
+					return true
+				})
+			}
+		}
+	}
+	if nFiles < len(valueScope) {
+		r.Fail("infra.anchor-unresolved", rule+"|value-scope", "", fmt.Sprintf("only %d of %d identification source files found", nFiles, len(valueScope)))
+	}
+	if nSites == 0 {
+		r.OK(rule, "identification|CallInstruction.Value()", "", "no identification code goes through CallInstruction.Value()")
 	}
 	r.Floor(rule, 7, "2 classifiers x 3 forms + scan")
 }
